@@ -3,6 +3,7 @@
   (Part 1, blob storage, is Props/C19.lean.)
 -/
 import InvProxy.Model.AppAuth
+import InvProxy.Proofs.AppAuth
 namespace InvProxy.C19
 open InvProxy InvProxy.AppAuth InvProxy.Gen
 
@@ -12,7 +13,12 @@ theorem fetch_is_request (s : St) (c a : Caller) (ls : Bytes → Option Int) (no
     (hp : (userPost s c ls now rid path contents).2.1 = some b)
     (ha : (agentCall (userPost s c ls now rid path contents).2.2 a .fetch b rid []).1 ≠ 401) :
     ∃ u, (agentCall (userPost s c ls now rid path contents).2.2 a .fetch b rid []).2.1 = .request u contents := by
-  sorry
+  obtain ⟨u, _, _, hs⟩ := userPost_some hp
+  rw [hs] at ha ⊢
+  refine ⟨u, ?_⟩
+  rcases agentCall_cases _ a .fetch b rid [] with ⟨e, _, h1⟩ | ⟨_, h1⟩
+  · rw [h1] at ha; exact absurd rfl ha
+  · rw [h1]; simp [agentOk, hr, getReq]
 
 /-- request IDs are fresh: App Engine request-log IDs are unique, so no two stored requests share an ID -/
 def RidFresh (s : St) : Prop := (s.reqs.map (·.1.2)).Nodup
@@ -32,36 +38,71 @@ theorem app_correlation (s : St) (calls : List Call) (rid : Rid) (v : Bytes)
     (h0 : getResp s.resps rid = none)
     (h : (userPoll (runCalls s calls) rid) = (200, .response v)) :
     ∃ c b, Call.agent c .respond b rid v ∈ calls ∧ v ≠ [] := by
-  sorry
+  obtain ⟨hg, hv⟩ := userPoll_200 h
+  have key : ∀ (calls : List Call) (s : St), getResp (runCalls s calls).resps rid = some v →
+      getResp s.resps rid = some v ∨ ∃ c b, Call.agent c .respond b rid v ∈ calls := by
+    intro calls
+    induction calls with
+    | nil => intro s h1; exact Or.inl h1
+    | cons x t ih =>
+      intro s h1
+      cases x with
+      | agent c ep b r p =>
+        simp only [runCalls] at h1
+        rcases ih _ h1 with h2 | ⟨c', b', h2⟩
+        · rcases getResp_agentCall h2 with h3 | ⟨h3, h4, h5⟩
+          · exact Or.inl h3
+          · subst h3 h4 h5
+            exact Or.inr ⟨c, b, List.mem_cons_self⟩
+        · exact Or.inr ⟨c', b', List.mem_cons_of_mem _ h2⟩
+  rcases key calls s hg with h1 | ⟨c, b, h1⟩
+  · rw [h0] at h1; cases h1
+  · exact ⟨c, b, h1, hv⟩
 
 /-- … and that agent was authorised for a backend under which the request exists -/
 theorem response_only_from_owner (s : St) (c : Caller) (b : Bid) (r : Rid) (p : Bytes)
     (h : getResp (agentCall s c .respond b r p).2.2.resps r ≠ getResp s.resps r) :
     (∃ be, findBackend s.backends b = some be ∧ c.oauth = some be.BackendUser) ∧ (getReq s.reqs (b, r)).isSome := by
-  sorry
+  rcases agentCall_respond s c b r p with ⟨_, h1⟩ | ⟨_, hc, _, h2, _, _⟩
+  · rw [h1] at h; exact absurd rfl h
+  · obtain ⟨_, _, be, h3, h4⟩ := (checkBackendID_ok_iff s c b b).1 hc
+    exact ⟨⟨be, h3, h4⟩, h2⟩
 
 /-- with fresh request IDs an agent of another backend can neither fetch nor answer the request -/
 theorem cross_backend_isolated (s : St) (c : Caller) (b b' : Bid) (r : Rid) (p : Bytes) (hf : RidFresh s)
     (hreq : (getReq s.reqs (b, r)).isSome) (hne : b' ≠ b) :
     (agentCall s c .fetch b' r []).1 ≠ 200 ∧ (agentCall s c .respond b' r p).2.2.resps = s.resps := by
-  sorry
+  have hnone : getReq s.reqs (b', r) = none := getReq_other_backend_none hf hreq hne
+  constructor
+  · rcases agentCall_cases s c .fetch b' r [] with ⟨e, _, h1⟩ | ⟨_, h1⟩
+    · rw [h1]; simp
+    · rw [h1]; unfold agentOk
+      by_cases hr : r = []
+      · simp [hr]
+      · simp [hr, hnone]
+  · rcases agentCall_respond s c b' r p with ⟨_, h1⟩ | ⟨_, _, _, h2, _, _⟩
+    · rw [h1]
+    · rw [hnone] at h2; cases h2
 
 /-- a completed request is no longer listed as pending -/
 theorem completed_not_listed (s : St) (c : Caller) (b : Bid) (r : Rid) (p : Bytes)
     (h : (agentCall s c .respond b r p).1 = 200) :
     r ∉ pendingOf (agentCall s c .respond b r p).2.2 b := by
-  sorry
+  rcases agentCall_respond s c b r p with ⟨h1, _⟩ | ⟨_, _, _, _, _, h2⟩
+  · exact absurd h h1
+  · unfold pendingOf; rw [h2]
+    exact not_pending_after_markDone s.reqs b r
 
 /-- no response in time ⇒ 504 -/
 theorem timeout_504 (s : St) (rid : Rid) (h : getResp s.resps rid = none) : (userPoll s rid).1 = 504 := by
-  sorry
+  unfold userPoll; rw [h]
 
 /-- Storage errors never leave the call hanging: with room for both error reports, from
     every reachable state of `postResponse` some goroutine can move until both are done —
     for every combination of failing store writes and every interleaving. -/
 theorem post_response_terminates (cap : Nat) (hc : 2 ≤ cap) (acts : List PRAct) (s : PR)
     (h : prRun { cap := cap, buf := 0, a := 0, b := 0 } acts = some s) (hn : prDone s = false) : prEnabled s = true := by
-  sorry
+  exact prInv_enabled hc (prRun_inv acts (prInv_init cap) h) hn
 
 /-- the defect found in the original code: capacity 1, both writes fail, the second sender blocks forever -/
 theorem post_response_hang_counterexample :
